@@ -134,6 +134,38 @@ def h_table(domains, cls_name):
                     ok_list.append(same(x, leaf[(i,) + idx]))
                     ok_list.append(same(np.asarray(sub)[(pos,) + idx], leaf[(i,) + idx]))
         S.check('getitem:list-of-outer-keys-gives-the-sub-table-in-the-given-order', S.And(ok_list))
+        # 4b. TUPLE selectors that carry a list of keys for an inner field (full-length permutations included), next to a key / a slice / a list for the outer one
+        if n >= 2:
+            ok_tl = []
+            d1 = list(domains[1])
+            inner_lists = [list(p) for r in sorted({1, len(d1)}) for p in itertools.permutations(d1, r)][:8]
+            for ks in inner_lists:
+                for i0, k0 in enumerate(d0):
+                    sub = t[k0, ks]                      # outer key fixed, inner keys listed: labels and numbers must stay in step
+                    ok_tl.append(S.truth(list(sub.keys()) == ks))
+                    for pos, k1 in enumerate(ks):
+                        j = d1.index(k1)
+                        for idx in np.ndindex(*leaf.shape[2:]):
+                            x = sub[k1]
+                            for f, jj in enumerate(idx):
+                                x = x[domains[f + 2][jj]]
+                            ok_tl.append(same(x, leaf[(i0, j) + idx]))
+                            ok_tl.append(same(np.asarray(sub)[(pos,) + idx], leaf[(i0, j) + idx]))
+                sub2 = t[:, ks]                           # every outer key, inner keys listed
+                ok_tl.append(S.truth(list(sub2.keys()) == d0))
+                for i0, k0 in enumerate(d0):
+                    row = sub2[k0]
+                    ok_tl.append(S.truth(list(row.keys()) == ks))
+                    for pos, k1 in enumerate(ks):
+                        j = d1.index(k1)
+                        for idx in np.ndindex(*leaf.shape[2:]):
+                            ok_tl.append(same(np.asarray(sub2)[(i0, pos) + idx], leaf[(i0, j) + idx]))
+                try:                                      # key lists on two fields at once are refused by design (the repository's MultipleIndexError)
+                    t[list(reversed(d0)), ks]
+                    ok_tl.append(S.false())
+                except Exception as e_:
+                    ok_tl.append(S.truth(type(e_).__name__ == 'MultipleIndexError'))
+            S.check('getitem:tuple-selector-with-a-key-list-for-an-inner-field-keeps-labels-and-cells-in-step', S.And(ok_tl))
         # 5. full slices and ellipsis return the table itself
         forms = [slice(None), ..., (slice(None),), (...,)]
         S.check('getitem:full-slice-and-ellipsis-return-the-table', S.truth(all(t[f] is t for f in forms)))
